@@ -373,7 +373,8 @@ def prove(assumptions, goal, timeout_s=10, opts=None, rounds=2):
     except Exception:  # pragma: no cover  (the normaliser is an accelerator; SMT decides otherwise)
         if (opts or {}).get("ring_only"):
             return Verdict(UNDECIDED, "ring-normaliser", (time.time() - t0) * 1000, reason="ring normaliser failed")
-    if not (opts or {}).get("no_slice"):
+    if not (opts or {}).get("no_slice") and _symbols(goal, {}):
+        # (a goal without symbols — `False` for an infeasibility obligation — has no cone of influence: keep everything)
         assumptions = slice_assumptions(list(assumptions), goal)
     base = [a for a in assumptions] + [z3.Not(goal)]
     inst = axioms.saturate(base, rounds=(opts or {}).get("rounds", rounds), opts=opts)
